@@ -24,10 +24,12 @@ EXTENDS Naturals, Sequences, FiniteSets, TLC
 
 CONSTANTS Impl
 
-Atoms == {"txt", "quote", "backslash", "endscript", "css_ph", "data_ph", "js_ph", "nonascii"}
+\* "x_ph": any FURTHER placeholder the assembly substitutes (the current template has none; the harness takes the actual set
+\* from the template and from report.py, so a placeholder added later is covered by the same rule: the data goes in last)
+Atoms == {"txt", "quote", "backslash", "endscript", "css_ph", "data_ph", "js_ph", "x_ph", "nonascii"}
 
 \* ---- assembly ---------------------------------------------------------------
-Template == <<"html", "css_ph", "html", "script_open", "data_ph", "script_close", "script_open", "js_ph", "script_close">>
+Template == <<"html", "x_ph", "css_ph", "html", "script_open", "data_ph", "script_close", "script_open", "js_ph", "script_close">>
 \* what json.dumps writes for one atom
 Written(a) == IF a = "endscript" /\ Impl = "intended" THEN "endscript_escaped" ELSE a
 DataChunk(data) == <<"data_begin">> \o [i \in 1..Len(data) |-> Written(data[i])] \o <<"data_end">>
@@ -40,10 +42,13 @@ ReplaceAll(doc, ph, content) ==
 Assemble(data) ==
   LET css == <<"css_text">>
       js == <<"js_text">>
-      d == DataChunk(data) IN
+      d == DataChunk(data)
+      x == <<"x_text">> IN
   IF Impl = "pinned"
-  THEN ReplaceAll(ReplaceAll(ReplaceAll(Template, "css_ph", css), "data_ph", d), "js_ph", js)
-  ELSE ReplaceAll(ReplaceAll(ReplaceAll(Template, "css_ph", css), "js_ph", js), "data_ph", d)
+  THEN ReplaceAll(ReplaceAll(ReplaceAll(ReplaceAll(Template, "x_ph", x), "css_ph", css), "data_ph", d), "js_ph", js)
+  ELSE IF Impl = "xlate"          \* a placeholder added later and substituted AFTER the data went in
+  THEN ReplaceAll(ReplaceAll(ReplaceAll(ReplaceAll(Template, "css_ph", css), "js_ph", js), "data_ph", d), "x_ph", x)
+  ELSE ReplaceAll(ReplaceAll(ReplaceAll(ReplaceAll(Template, "x_ph", x), "css_ph", css), "js_ph", js), "data_ph", d)
 
 \* what a reader recovers: the content of the first script element that starts with data_begin, up to the first
 \* raw "endscript" or script_close
